@@ -232,6 +232,8 @@ pub struct URoom {
 
 impl Universe {
     pub async fn start(root: &PathBuf) -> Result<Universe, String> {
+        // identifiers are drawn from a deterministic source so that runs are reproducible
+        discret::verif_hooks::set_uid_namespace(0x5eed_0001);
         let mut peers = vec![];
         for (i, n) in NAMES.iter().enumerate() {
             peers.push(FPeer::start(n, (i + 1) as u8, MODEL, root).await?);
